@@ -575,6 +575,9 @@ func (vc *VC) evalCall(x *ECall, env *Env, st, old *State) Val {
 	case "off":
 		a := arg(0)
 		return Val{K: KInt, T: tInt, S: sx("soff", a.S)}
+	case "subslice":
+		a, b := arg(0), arg(1)
+		return Val{K: KBool, T: tBool, S: and(sx("wfslice", a.S), eq(sx("sarr", a.S), sx("sarr", b.S)), sx("<=", sx("soff", b.S), sx("soff", a.S)), sx("<=", sx("+", sx("soff", a.S), sx("slen", a.S)), sx("+", sx("soff", b.S), sx("slen", b.S))), not(eq(sx("sarr", a.S), "nil")))}
 	case "sameslice":
 		a, b := arg(0), arg(1)
 		return Val{K: KBool, T: tBool, S: eq(a.S, b.S)}
